@@ -1,6 +1,7 @@
 """C06 — policy management behaves as operations on a duplicate-free ordered rule set"""
 import common
 import policy_corr as pc
+import enf_corr as ec
 
 TRANSLATORS = []
 LEVEL = "proof"
@@ -40,6 +41,57 @@ def gen_histories(ctx, shape, deep):
     return hists
 
 
+def _wrapper_judge(res, cfg, hist, i, op, rec, model, case, queries):
+    """the RBAC-API wrappers are compositions of management calls (exact rule / filter): result and stored policy must be
+    those of the composition on the ordered rule set (Model/Policy.lean, proved equal to the set specification)"""
+    bad = None
+    if rec["ret"] != model["ret"]:
+        bad = f"returned {rec['ret']}, the composition of set operations gives {model['ret']}"
+    else:
+        for s in ("p", "g"):
+            if ec.enc_rules(rec["pol"][s]) != model["obs"][s]:
+                bad = f"stored {s} rules {rec['pol'][s]} differ from the specified {common.dec_rules(model['obs'][s])}"
+                break
+    if bad:
+        res.violation({"signature": f"C06:wrapper:{op[0]}", "stream": "wrappers", "what": f"{cfg.shape}: after {[list(o) for o in hist[:i]][-2:]} the call {list(op)} {bad}",
+                       "case": case, "expected": [model["ret"], model["obs"]["p"], model["obs"]["g"]], "observed": [rec["ret"], ec.enc_rules(rec["pol"]["p"]), ec.enc_rules(rec["pol"]["g"])]})
+        return False
+    return True
+
+
+def wrapper_ops(shape):
+    P, G, G2, R = ec.universe(shape)
+    ops = []
+    for r in P[:3]:
+        ops += [("add_permission_for_user", r[0], r[1:]), ("delete_permission_for_user", r[0], r[1:]),
+                ("delete_permission_for_user", r[0], r[1:-1]),  # a prefix of a stored rule is not a stored rule
+                ("delete_permission_for_user", r[0], [""] + r[2:]),  # nor is a rule with an empty field a wildcard
+                ("delete_permissions_for_user", r[0]), ("delete_permission", r[1:]), ("delete_permission", r[1:2])]
+    ops += [("delete_user", "alice"), ("delete_role", "admin"), ("delete_roles_for_user", "alice")]
+    if shape != "dom":
+        ops += [("add_role_for_user", "bob", "root"), ("add_role_for_user", "alice", "admin"), ("delete_role_for_user", "alice", "admin"), ("delete_role_for_user", "alice", "root")]
+    else:
+        ops += [("delete_roles_for_user_in_domain", "alice", "admin", "d1")]
+    return ops
+
+
+def run_wrappers(ctx, res, deep):
+    rng = ctx["rng"]
+    jobs = []
+    for shape in ("rbac", "dom"):
+        P, G, G2, R = ec.universe(shape)
+        ops = wrapper_ops(shape)
+        for init in ({"p": P, "g": G, "g2": []}, {"p": P[:2], "g": G[:1], "g2": []}):
+            for is_async in (False, True):
+                cfg = ec.Config(shape, adapter=False, watcher=None, initial=init, is_async=is_async)
+                cfg.noq = True
+                for a in ops:
+                    jobs.append((cfg, [a]))
+                for _ in range(150 if not deep else 1500):
+                    jobs.append((cfg, [rng.choice(ops) for _ in range(rng.randint(2, 6))]))
+    ec.run_configs(res, jobs, _wrapper_judge, fresh_oracle=False)
+
+
 def run(ctx):
     res = common.Result()
     deep_stages = [False] if not ctx["deep"] else ([True] if ctx["proof_ok"] else [False, True])
@@ -48,6 +100,7 @@ def run(ctx):
             hists = gen_histories(ctx, shape, deep)
             forms = (0,) if shape.level == "unit" else (0, 1, 2)
             pc.run_batch("C06", res, shape, hists, "set", forms=forms)
+        run_wrappers(ctx, res, deep)
         if res.spec_violations:
             break
     res.rule = (
@@ -55,11 +108,19 @@ def run(ctx):
         "rules incl. the same rule twice and partly-present batches, 10 filters incl. empty/out-of-range, updates onto "
         "present/absent/self, batch updates) with has/get/get_filtered reads after every step, on ACL (p, p2) and RBAC (g) models, "
         "unit level (model.policy) and Enforcer API in three call forms; plus seeded random histories of length 3-10 "
-        "(thorough: all length-3 histories over the 24 core mutators); non-trivial = contains a mutating call; distinct by (shape, history)"
+        "(thorough: all length-3 histories over the 24 core mutators); the RBAC-API wrappers (add/delete_permission(s)_for_user with complete, prefix and "
+        "empty-field permissions, delete_permission, delete_user/role, add/delete_role_for_user) on Enforcer and AsyncEnforcer against their composition "
+        "of set operations; batch calls fed with the object a read returned; non-trivial = contains a mutating call; distinct by (shape, history)"
     )
     res.exhaustive = True
     return res
 
 
 def replay(obj):
+    if obj.get("stream") == "wrappers":
+        c = obj["case"]["config"]
+        cfg = ec.Config(c["shape"], adapter=c["adapter"], watcher=c["watcher"], initial=c["initial"], is_async=c.get("async", False))
+        cfg.noq = True
+        last = ec.run_history(cfg, [tuple(o) for o in obj["case"]["history"]], [], fresh_oracle=False)[-1]
+        return [last["ret"], ec.enc_rules(last["pol"]["p"]), ec.enc_rules(last["pol"]["g"])] != obj["expected"]
     return pc.replay(obj)
